@@ -66,10 +66,29 @@ class NumericMixin:
       return VBool(v.nan)
     return VBool(False)
 
-  def np_any(self, it, a, k):
-    return VBool(self.truth(a[0]))
+  def _reduce_bool(self, this, is_any):
+    """np.any / np.all over an array seen through one generic element: the other
+    elements contribute an unknown Boolean, unless the facts that hold for every
+    element alike (requires, callee postconditions, type facts - not the branch
+    decisions taken for this element) already decide the generic element."""
+    this = z3.simplify(this)
+    if z3.is_true(this) or z3.is_false(this):
+      return VBool(this)
+    s = z3.Solver()
+    s.set('timeout', 2000)
+    for c in self.path.assumed:
+      s.add(c)
+    s.add(this if is_any else z3.Not(this))
+    if s.check() == z3.unsat:
+      return VBool(not is_any)       # impossible (any) / certain (all) for every element
+    others = self.fresh_bool('other_elements')
+    return VBool(z3.Or(this, others) if is_any else z3.And(this, others))
 
-  np_all = np_any
+  def np_any(self, it, a, k):
+    return self._reduce_bool(self.truth(a[0]), True)
+
+  def np_all(self, it, a, k):
+    return self._reduce_bool(self.truth(a[0]), False)
 
   def np_sqrt(self, it, a, k):
     """A3: sqrt(x) >= 0 and sqrt(x)^2 == x for x >= 0; NaN for x < 0."""
